@@ -1,4 +1,6 @@
 from ..jobs import CH
+from ._util import tjobs
+from ..spec.templates import ALL
 
 H = "vf.harness.c14"
 META = {
@@ -34,4 +36,23 @@ def jobs(tier):
             timeout=120, twin=(step != 0), note="symbolic size, slice start/stop and index (step fixed per shard); oracle: reference slice arithmetic",
             functions=["Register.__init__", "Register.resolve_size", "Register.resolve_qubit", "NamedQubit.__init__"],
         ))
+    for t in ALL:
+        if t == "t_float":
+            continue
+        for mask in ((0, 1) if q else (0, 1, 3)):
+            ep = [("o0", "int")] if mask else []
+            pre = ["-1 <= o0 <= 3" if q else "-2 <= o0 <= 5"] if mask else []
+            fx = {"mask": mask, "o1": 0}
+            if not mask:
+                fx["o0"] = 0
+            out.extend(tjobs(f"{H}:c14_pipeline", t, tier, fixed=fx, extra_params=ep, extra_pre=pre, timeout=400 if q else 1500,
+                             functions=["Builder.build", "Builder.build_array_item", "Builder.add_to_context", "Builder.get_gate_definition", "AbstractGate.call",
+                                        "Parameter.validate", "fill_in_let", "expand_macros", "GateReplacer.visit_NamedQubit", "run_jaqal_circuit"],
+                             note=f"{t} over the native gate set, override mask {mask}: if the reference finds a reference that cannot be honoured, some stage up to "
+                                  "emulation raises JaqalError (never another exception, never a result)"))
+    for inj in range(4):
+        out.append(CH(name=f"gatesets_inj{inj}", base="c14_gatesets", func=f"{H}:c14_gatesets", params=[("ma", "int"), ("mb", "int"), ("nargs", "int"), ("other", "bool")],
+                      pre=["0 <= ma <= 3", "0 <= mb <= 3", "0 <= nargs <= 3"], fixed={"inj": inj}, timeout=300,
+                      functions=["UsePulsesStatement.update_gates", "Builder.build_circuit", "Builder.get_gate_definition", "jaqal_import"],
+                      note="precedence injected > later import > earlier import decides the arity a call must have; unknown gates are rejected when natives are in force"))
     return out
